@@ -199,6 +199,7 @@ Fixpoint gen_sq (v : value) : list instr :=
 Definition sq_model (rho : value -> option value) (v : value) : option (value * nat) :=
   match run rho (gen_sq v) [] with
   | Done (IVal x :: r) => Some (x, length r)
+  | Done [] => Some (VList [], 0%nat)      (* Run() returns nil when nothing was pushed *)
   | _ => None
   end.
 
